@@ -2,6 +2,7 @@ import os
 import math
 import numba
 import pickle
+import threading
 import hashlib
 import itertools
 import functools
@@ -536,8 +537,17 @@ class AggregateAssignmentMatrixGenerator:
     @staticmethod
     def _write_to_cache(cache_path, obj):
         os.makedirs(os.path.dirname(cache_path), exist_ok=True)
-        with open(cache_path, 'wb') as fp:
-            pickle.dump(obj, fp)
+
+        # Write to a temporary file first: if writing is interrupted (e.g. by the encoding time limit), no truncated
+        # cache file is left behind for later calls to stumble over
+        tmp_path = f'{cache_path}.{os.getpid()}.{threading.get_ident()}.tmp'
+        try:
+            with open(tmp_path, 'wb') as fp:
+                pickle.dump(obj, fp)
+            os.replace(tmp_path, cache_path)
+        finally:
+            if os.path.exists(tmp_path):
+                os.remove(tmp_path)
 
     @staticmethod
     def _load_from_cache(cache_path):
